@@ -98,7 +98,7 @@ func zzStubNBT() {
 }
 
 // Crafted counts in the configuration and play states: a one-byte packet id, a 5-byte VarInt (every
-// int32) and up to one more byte: a count or length field at the front of any packet type never
+// int32) and up to one (thorough: two) more bytes: a count or length field at the front of any packet type never
 // leads to an allocation out of proportion to the 7-byte payload, in either direction.
 func VerifHarness_DecodeCraftedCountsLate() {
 	zz.MaxLen(8)
@@ -107,12 +107,15 @@ func VerifHarness_DecodeCraftedCountsLate() {
 	zzStubNBT()
 	st := zzStateReg(3 + zz.Choose(2))
 	protocol := []proto.Protocol{764, 767, 776}[zz.Choose(3)]
-	payload := append([]byte{zz.Byte()}, zz.Bytes(5+zz.Choose(2))...)
-	zz.Assume(payload[0] < 0x80)
-	if !zz.Thorough() {
-		// quick: the VarInt in its full 5-byte form (still every int32 value)
-		zz.Assume(payload[1] >= 0x80 && payload[2] >= 0x80 && payload[3] >= 0x80 && payload[4] >= 0x80 && payload[5] < 0x10)
+	extra := 2
+	if zz.Thorough() {
+		extra = 3
 	}
+	payload := append([]byte{zz.Byte()}, zz.Bytes(5+zz.Choose(extra))...)
+	zz.Assume(payload[0] < 0x80)
+	// the VarInt in its full 5-byte form (still every int32 value); shorter encodings of small values are
+	// what the plain arbitrary-bytes harnesses cover
+	zz.Assume(payload[1] >= 0x80 && payload[2] >= 0x80 && payload[3] >= 0x80 && payload[4] >= 0x80 && payload[5] < 0x10)
 	ctx, err := zzDecodeAny(st, zz.Bool(), protocol, payload)
 	zz.Assert(ctx != nil || err != nil, "decoding returned neither a context nor an error")
 	zz.Reach("crafted-late")
